@@ -54,6 +54,14 @@ type GhostStmt struct {
 	E    *SpecExpr
 }
 
+// Scenario: a variant of the entry parametrisation. The lets on the listed lvalues are dropped ("free") or
+// replaced ("lv = expr"); every obligation of the function is generated again under each scenario.
+type Scenario struct {
+	Label string
+	Set   []GhostStmt
+	Free  map[string]bool
+}
+
 // TheoremGoal: a closed SMT-LIB formula proved from the block's preamble alone
 type TheoremGoal struct {
 	Name string
@@ -110,6 +118,7 @@ type Contract struct {
 	Nullable    []string // pointer-typed cells that may be nil at entry
 	GhostParams []string
 	Lets        []GhostStmt // entry parametrisation: lvalue = expr (substituted into the entry state)
+	Scenarios   []*Scenario // alternative entry parametrisations (e.g. a point at infinity with arbitrary X, Y)
 	Inner       map[string]map[int]*Annot // loop annotations of inlined functions (closures), by function name
 	Theorem     bool        // a block of pure SMT goals (no Go function): inductive lemmas used as axioms by contracts
 	Goals       []TheoremGoal
@@ -457,6 +466,29 @@ func ParseContracts(file string) ([]*Contract, error) {
 				return nil, fail(err)
 			}
 			cur.Modulo = append(cur.Modulo, g)
+		case "scenario":
+			i := strings.Index(rest, ":")
+			if i < 0 {
+				return nil, fail(fmt.Errorf("scenario syntax: <label>: lv = e; free lv; ..."))
+			}
+			sc0 := &Scenario{Label: strings.TrimSpace(rest[:i]), Free: map[string]bool{}}
+			for _, part := range strings.Split(rest[i+1:], ";") {
+				part = strings.TrimSpace(part)
+				if part == "" {
+					continue
+				}
+				if strings.HasPrefix(part, "free ") {
+					sc0.Free[strings.TrimSpace(part[5:])] = true
+					continue
+				}
+				g, err := parseGhost(part)
+				if err != nil {
+					return nil, fail(err)
+				}
+				sc0.Set = append(sc0.Set, g)
+				sc0.Free[g.Name] = true
+			}
+			cur.Scenarios = append(cur.Scenarios, sc0)
 		case "ghost-final":
 			g, err := parseGhost(rest)
 			if err != nil {
